@@ -92,8 +92,11 @@ def gen_scenario(r, mode=None):
         target["life"] = 2
         target["fin"] = r.random() < 0.8
         if mode == "archived-done":
-            target["conds"] = [c for c in target["conds"] if c[0] != 0] + [[4, 0, 8, g]]
-            target["fin"] = False
+            # archival completed earlier, possibly for an older generation, possibly with the lifecycle state
+            # flipped back afterwards: the ObjectSet must never be reconciled again
+            target["conds"] = [c for c in target["conds"] if c[0] != 0] + [[4, 0, 8, r.choice([g, g, max(g - 1, 1), 1])]]
+            target["fin"] = r.random() < 0.2
+            target["life"] = r.choice([2, 2, 0, 1])
         elif r.random() < 0.4:
             target["conds"].append([4, 1, 9, g])
         if r.random() < 0.15:
